@@ -1016,7 +1016,8 @@ func opValueChangeJournal(ctx context.Context, pc *uint64, interpreter *EVMInter
 	}
 
 	typeSizeU64, overflow := typeSize.Uint64WithOverflow()
-	if overflow || typeSizeU64 > 32 {
+	if overflow || typeSizeU64 > 32-offsetU64 {
+		// the value must fit into the slot at the given offset
 		return nil, errors.New("type size out of range")
 	}
 
